@@ -1,6 +1,6 @@
 (** ParseSoundGrammar.v — C03, facts about the grammar family of Grammar.v alone (no parser):
     monotonicity in the three leaf predicates, so that the lenient dialect and RFC 8259 differ
-    ONLY in which whitespace bytes, raw string bytes and number tokens they admit; the nesting
+    ONLY in which whitespace bytes, raw string bytes and number tokens they allow; the nesting
     index bounds the nesting of the denoted value. *)
 From CJ Require Import Base Dbl Tree Grammar.
 Local Open Scope Z_scope.
@@ -179,7 +179,7 @@ Section Depth.
   Lemma text_depth n txt v : text is_ws raw_ok num_tok n txt v -> (depth_of v <= n)%nat.
   Proof. intros (bom & w1 & t & w2 & _ & _ & _ & _ & Hv). eapply value_depth. exact Hv. Qed.
 
-  (** a larger index admits more *)
+  (** a larger index allows more *)
   Lemma grammar_depth_mono :
     (forall d t v, value is_ws raw_ok num_tok d t v -> forall d', (d <= d')%nat -> value is_ws raw_ok num_tok d' t v) /\
     (forall d b l, elements is_ws raw_ok num_tok d b l -> forall d', (d <= d')%nat -> elements is_ws raw_ok num_tok d' b l) /\
